@@ -30,7 +30,8 @@ Ver(p) == IF p.level = 5 THEN 5 ELSE 3
 \* limits in force once the handshake is accepted
 EffQos(p) == IF Ver(p) = 5 /\ p.ackQos >= 0 THEN p.ackQos ELSE p.maxQos
 EffAlias(p) == IF p.ackAlias >= 0 THEN p.ackAlias ELSE p.aliasMax
-EffSize(p) == IF Ver(p) = 5 /\ p.ackSize >= 0 THEN p.ackSize ELSE p.maxSize
+\* (MQTT 3.1.1: HandshakeAck::max_packet_size takes a non-zero value only - it can lower or raise the limit, not lift it)
+EffSize(p) == IF Ver(p) = 5 /\ p.ackSize >= 0 THEN p.ackSize ELSE IF Ver(p) = 3 /\ p.ackSize > 0 THEN p.ackSize ELSE p.maxSize
 EffRM(p) == IF p.ackRM > 0 THEN p.ackRM ELSE p.maxReceive
 EffWindow(p) == LET base == IF p.ackSend > 0 THEN p.ackSend ELSE p.maxSend IN
                 IF Ver(p) = 5 /\ p.rm > 0 /\ p.rm < base THEN p.rm ELSE base
